@@ -443,7 +443,7 @@ int sim_main(int argc, char **argv) {
 		uint64_t count = strtoull(arg(argc, argv, "--count", "100"), 0, 0);
 		uint64_t stride = strtoull(arg(argc, argv, "--stride", "1"), 0, 0);
 		double budget = atof(arg(argc, argv, "--budget-s", "0"));
-		bool hashes = flag(argc, argv, "--hashes");
+		bool hashes = flag(argc, argv, "--hashes"), flush_each = flag(argc, argv, "--flush");
 		signal(SIGALRM, on_alarm); signal(SIGVTALRM, on_alarm);
 		Stats st; uint64_t runs = 0, disc = 0, viol = 0, events = 0;
 		double t0 = now_s();
@@ -451,6 +451,7 @@ int sim_main(int argc, char **argv) {
 		for (uint64_t k = 0; k < count; ++k, i += stride) {
 			if (budget > 0 && (k & 7) == 0 && now_s() - t0 > budget) break;
 			printf("S %llu\n", (unsigned long long) i);
+			if (flush_each) fflush(stdout);      // keeps the seed markers in order with what a tool like valgrind writes to stderr
 			arm_watchdog(4);
 			Plan p = make_plan(w, base, i, tier);
 			Result r = run_plan(w, p, false, st);
@@ -514,6 +515,14 @@ int sim_main(int argc, char **argv) {
 		return 0;
 	}
 	if (mode == "components") { printf("%s\n", w.components_json()); return 0; }
+	if (mode == "exec1") {
+		// one plan, in this process, no fork: the form used under valgrind
+		if (argc < 3) { fprintf(stderr, "exec1 <plan>\n"); return 2; }
+		std::string text, err; Plan p; if (!read_file(argv[2], text) || !Plan::parse(text, w, p, err)) { fprintf(stderr, "cannot read plan %s: %s\n", argv[2], err.c_str()); return 2; }
+		Stats st; Result r = run_plan(w, p, false, st);
+		printf("EXEC1 sig=%s hash=%016llx\n", r.sig.empty() ? "-" : r.sig.c_str(), (unsigned long long) r.hash);
+		return r.sig.empty() ? 0 : 1;
+	}
 	if (mode == "sweepcount") { printf("%llu\n", (unsigned long long) w.sweep_count(tier)); return 0; }
 	fprintf(stderr, "unknown mode %s\n", mode.c_str());
 	return 2;
